@@ -1204,7 +1204,10 @@ class TokenizerCore:
                     text += self._char + self._peek
 
                 if self._current + 1 < self.size:
-                    self._advance(2)
+                    # One character at a time: the escaped character can be a line break,
+                    # which _advance only counts when it is the current character
+                    self._advance()
+                    self._advance()
                 else:
                     raise TokenError(f"Missing {delimiter} from {self._line}:{self._current}")
             else:
